@@ -28,6 +28,12 @@ def m_len(I, path, args, kwargs):
             n = x.keyseq.length
             return n if isinstance(n, int) else SInt(n)
         raise Unsupported("len of functional dict")
+    if getattr(x, "host_symbolic", False):
+        h = I.hooks.get("len_host")
+        if h:
+            r = h(I, path, x)
+            if r is not _MISSING:
+                return r
     if isinstance(x, SV):
         h = I.hooks.get("len_opaque")
         if h:
